@@ -161,6 +161,20 @@ class Modules:
                         return ('fmt', params.index(c.args[0].id))
                     if isinstance(c.func.value, ast.Name) and c.func.value.id in params:
                         return ('struct', params.index(c.func.value.id))
+                    if isinstance(c.func.value, ast.Name):
+                        # a local compiled (or looked up in a cache) from the format parameter:
+                        #   s = _structs.get(fmt) ; if s is None: s = _structs[fmt] = struct.Struct(fmt)
+                        loc = c.func.value.id
+                        srcs = set()
+                        for a in ast.walk(fn):
+                            if isinstance(a, ast.Assign) and any(isinstance(t, ast.Name) and t.id == loc for t in a.targets):
+                                srcs |= {x.id for x in ast.walk(a.value) if isinstance(x, ast.Name) and x.id in params}
+                        compiled = any(isinstance(x, ast.Call) and U(x.func) == 'struct.Struct' and len(x.args) == 1
+                                       and isinstance(x.args[0], ast.Name) and x.args[0].id in srcs for x in ast.walk(fn))
+                        if len(srcs) == 1 and compiled:
+                            return ('fmt', params.index(next(iter(srcs))))
+        if strip_of(fname) == '_unpack' and len(params) >= 3:
+            return ('fmt', 0)            # the library's `_unpack(fmt, data, offset)`, however it is written inside
         return None
 
     def bases(self, name):
